@@ -33,6 +33,14 @@ CHECKS = {
             "cpuid/xgetbv hooks replace the instructions faithfully (answers above the maximum leaf follow the vendor's documented behaviour); "
             "code for non-host configurations is classified by its listing, not executed",
             "DESIGN.md 4/C19", True),
+    "C14": ("xparse", "exploration",
+            "bounded exhaustive enumeration of parser inputs (line sequences over a line alphabet, limit files, all short byte strings) on the real parser under ASan + array-bounds instrumentation",
+            "Every sequence of up to 3 lines over a 60-line alphabet of valid and malformed directives/opcodes (x LF/CRLF/no final newline x "
+            "inside/outside a function), a set of limit files, and every byte string up to the stated length over a 13-byte alphabet are "
+            "parsed; error records are checked (text, line number within the file, the known-malformed line is reported), every returned "
+            "program is compiled and freed, the error list is freed, under AddressSanitizer with -fsanitize=bounds.",
+            "sanitizers see heap/stack/array-index violations, not every intra-object overwrite; line alphabet and byte alphabet are stated, longer inputs are not covered",
+            "DESIGN.md 4/C14", True),
 }
 
 NOT_YET = {}
@@ -73,6 +81,8 @@ def main():
             "add_only": True,
         },
         "engines": [
+            {"name": "xparse", "path": "engines/xparse.c", "serves_properties": ["C14"],
+             "kind_free_text": "exhaustive parser-input enumerator (ASan+bounds build), supervised worker with per-case crash attribution"},
             {"name": "xcpu", "path": "engines/xcpu.c", "serves_properties": ["C19"],
              "kind_free_text": "configuration-vector enumerator: fork per vector, hooks answer cpuid/xgetbv, parent judges against the model"},
             {"name": "xhist", "path": "engines/xhist.c", "serves_properties": ["C09"],
